@@ -825,7 +825,8 @@ class TCPUDSServerTransport(UDSServerTransport):
             try:
                 line = await reader.readline()
 
-                if not line:
+                if not line.endswith(b"\n"):
+                    # EOF; an unterminated rest of a line is not a request
                     break
 
                 tcp_request = line.decode("ascii").strip()
